@@ -101,6 +101,7 @@ config!(CStack8x3m, "stack8x3m", dyn TNone, Stack<31>, Stack::<31>, E8a8d, true,
 config!(CStack8x3p, "stack8x3p", dyn TNone, Stack<25>, Stack::<25>, E8a8d, true, 3, "stack");
 config!(CStack8x2p, "stack8x2p", dyn TNone, Stack<23>, Stack::<23>, E8a8d, true, 2, "stack");
 config!(CStackN2, "stackn2", dyn TNone, StackN<2, 17>, StackN::<2, 17>, E8a8d, true, 2, "stackn");
+config!(CStack0d, "stack0d", dyn TNone, Stack<4>, Stack::<4>, E0a1d, true, 1_000_000_000, "stack");
 config!(CStack16x4, "stack16x4", dyn TNone, Stack<64>, Stack::<64>, E16a16d, true, 4, "stack");
 config!(CStack32x4, "stack32x4", dyn TNone, Stack<128>, Stack::<128>, E32a32d, true, 4, "stack");
 config!(CStack64x2, "stack64x2", dyn TNone, Stack<128>, Stack::<128>, E64a64n, true, 2, "stack");
@@ -489,7 +490,7 @@ fn main() {
         };
     }
     #[cfg(feature = "alloc")]
-    dispatch!(CEmpty8d, CEmpty0c, CHeap8n, CHeap8d, CHeap8c, CHeap3c, CHeap0c, CHeap8css, CStack8c, CHeap3n, CHeap160, CHeap0d, CHeap1n, CHeap2d, CHeap12d, CHeap16d, CHeap24d, CHeap32d, CHeap64n, CHeap160a32, CHeap0n, CFence8d, CFence3n, CFence24d, CFence160, CFence0d, CStack24x3, CStackN3, CStack8x3m, CStack8x3p, CStack8x2p, CStackN2, CStack16x4, CStack32x4, CStack64x2);
+    dispatch!(CEmpty8d, CEmpty0c, CHeap8n, CHeap8d, CHeap8c, CHeap3c, CHeap0c, CHeap8css, CStack8c, CHeap3n, CHeap160, CHeap0d, CHeap1n, CHeap2d, CHeap12d, CHeap16d, CHeap24d, CHeap32d, CHeap64n, CHeap160a32, CHeap0n, CFence8d, CFence3n, CFence24d, CFence160, CFence0d, CStack24x3, CStackN3, CStack8x3m, CStack8x3p, CStack8x2p, CStackN2, CStack16x4, CStack32x4, CStack64x2, CStack0d);
     #[cfg(not(feature = "alloc"))]
-    dispatch!(CEmpty8d, CEmpty0c, CStack8c, CFence8d, CFence3n, CFence24d, CFence160, CFence0d, CStack24x3, CStackN3, CStack8x3m, CStack8x3p, CStack8x2p, CStackN2, CStack16x4, CStack32x4, CStack64x2);
+    dispatch!(CEmpty8d, CEmpty0c, CStack8c, CFence8d, CFence3n, CFence24d, CFence160, CFence0d, CStack24x3, CStackN3, CStack8x3m, CStack8x3p, CStack8x2p, CStackN2, CStack16x4, CStack32x4, CStack64x2, CStack0d);
 }
